@@ -144,12 +144,15 @@ class U:
     def assume(self, c, why=None):
         ctx().assume(c)
 
+    assume_ensures = True      # a unit whose clauses are independent of each other switches this off: a refuted clause then
+                               # does not become a (strange) hypothesis of the clauses that follow it on the path
+
     def ensure(self, name, clause, kind="ensures"):
         """clause: SBool / Q, or a zero-argument callable producing one (evaluated in spec mode)"""
         if callable(clause) and not isinstance(clause, Q):
             with core.spec_mode():
                 clause = clause()
-        ctx().oblige("%s/%s" % (self.unit.name, name), clause, kind=kind)
+        ctx().oblige("%s/%s" % (self.unit.name, name), clause, kind=kind, then_assume=self.assume_ensures)
 
     def spec(self):
         return core.spec_mode()
